@@ -160,28 +160,29 @@ def build(sp):
     variant = sp.get("v", "canon")
     # "content+layout" composes a content variant (zeroterm / unsorted / unusedname / bigalloc) with a layout variant
     # (T / F / slice / rev / readonly); a single word is either of them
-    content, _, layout = variant.partition("+")
-    if not layout and content in ("T", "F", "slice", "rev", "readonly", "view"):
-        content, layout = "canon", content
+    tokens = variant.split("+")
+    layouts = [t_ for t_ in tokens if t_ in ("T", "F", "slice", "rev", "readonly", "view")]
+    contents = [t_ for t_ in tokens if t_ not in layouts and t_ != "canon"]
+    assert len(layouts) <= 1 and all(c_ in ("zeroterm", "unsorted", "unusedname", "bigalloc") for c_ in contents), variant
+    layout = layouts[0] if layouts else ""
     terms = [(tuple(e), numpy.array([dec_num(x) for x in c]).astype(dtype).reshape(shape)) for e, c in sp["t"]]
     if not terms:
         terms = [((0,) * len(names), numpy.zeros(shape, dtype))]
-    variant = content
-    if variant == "zeroterm":
+    if "zeroterm" in contents:
         used = {e for e, _ in terms}
         extra = tuple([3] + [0] * (len(names) - 1))
         if extra not in used:
             terms.append((extra, numpy.zeros(shape, dtype)))
     # storage order: the library itself always produces exponent rows in numpy.unique (lexicographic)
     # order, so that is the canonical representation of inputs; "unsorted" is the reverse of it
-    terms.sort(key=lambda t: t[0], reverse=(variant == "unsorted"))
-    if variant == "unusedname":
+    terms.sort(key=lambda t: t[0], reverse=("unsorted" in contents))
+    if "unusedname" in contents:
         k = 1 + max(name_index(n) for n in names)
         names = names + (f"q{k}",)
         terms = [(e + (0,), c) for e, c in terms]
     exps = [e for e, _ in terms]
     kw = {}
-    if variant == "bigalloc":
+    if "bigalloc" in contents:
         kw["allocation"] = len(exps)  # the only other value ndpoly accepts consistently
     variant = layout or "canon"
     if variant == "T" and len(shape) >= 2:
